@@ -165,6 +165,9 @@ enum M {
     Fail { c: u64, t: u64, v: u64 },
     #[serde(rename = "org.zv.Sub")]
     Sub { c: u64, t: u64 },
+    /// echoes a client-provided string
+    #[serde(rename = "org.zv.Say")]
+    Say { c: u64, t: u64, s: String },
 }
 
 impl M {
@@ -177,6 +180,7 @@ impl M {
             M::Total { c, t } => [3, c, t, 0],
             M::Fail { c, t, v } => [4, c, t, v],
             M::Sub { c, t } => [5, c, t, 0],
+            M::Say { c, t, .. } => [6, c, t, 0],
         }
     }
 }
@@ -184,7 +188,13 @@ impl M {
 #[derive(Debug, Serialize)]
 struct RP {
     t: u64,
-    v: u64,
+    #[serde(skip_serializing_if = "Option::is_none")]
+    v: Option<u64>,
+    #[serde(skip_serializing_if = "Option::is_none")]
+    s: Option<String>,
+}
+fn rp(t: u64, v: u64) -> RP {
+    RP { t, v: Some(v), s: None }
 }
 #[derive(Debug, Serialize)]
 struct IP {
@@ -268,16 +278,17 @@ impl Service for Svc {
         let [_, c, t, _] = call.method().code();
         self.trace.borrow_mut().push(vec![2, t]);
         match *call.method() {
-            M::Echo { t, v, .. } => MethodReply::Single(Some(RP { t, v })),
+            M::Echo { t, v, .. } => MethodReply::Single(Some(rp(t, v))),
+            M::Say { t, ref s, .. } => MethodReply::Single(Some(RP { t, v: None, s: Some(s.clone()) })),
             M::Ping { .. } => MethodReply::Single(None),
             M::Count { t, .. } => {
                 let n = self.counts.entry(c).or_insert(0);
                 *n += 1;
-                MethodReply::Single(Some(RP { t, v: *n }))
+                MethodReply::Single(Some(rp(t, *n)))
             }
             M::Total { t, .. } => {
                 self.total += 1;
-                MethodReply::Single(Some(RP { t, v: self.total }))
+                MethodReply::Single(Some(rp(t, self.total)))
             }
             M::Fail { t, v, .. } => MethodReply::Error(SErr::Bad { t, v }),
             M::Sub { .. } => {
@@ -293,10 +304,20 @@ impl Service for Svc {
 }
 
 // ---------------------------------------------------------------- oracles
-fn decode_oracle(seg: &[u8]) -> Value {
+/// Decoded call as [kind, c, t, v, oneway, more]; for Say, v is the index of the string in `strs`.
+fn decode_oracle(seg: &[u8], strs: &mut Vec<String>) -> Value {
     match serde_json::from_slice::<Call<M>>(seg) {
         Ok(call) => {
-            let [k, c, t, v] = call.method().code();
+            let [k, c, t, mut v] = call.method().code();
+            if let M::Say { s, .. } = call.method() {
+                v = match strs.iter().position(|x| x == s) {
+                    Some(i) => i as u64,
+                    None => {
+                        strs.push(s.clone());
+                        (strs.len() - 1) as u64
+                    }
+                };
+            }
             json!([k, c, t, v, call.oneway() as u64, call.more() as u64])
         }
         Err(_) => Value::Null,
@@ -320,7 +341,10 @@ fn template(bytes: Vec<u8>, sentinels: &[&str]) -> Value {
 fn templates() -> Value {
     const A: u64 = 1111111;
     const B: u64 = 2222222;
-    let single = serde_json::to_vec(&Reply::new(Some(RP { t: A, v: B })).set_continues(Some(false)));
+    let single = serde_json::to_vec(&Reply::new(Some(rp(A, B))).set_continues(Some(false)));
+    let say = serde_json::to_vec(
+        &Reply::new(Some(RP { t: A, v: None, s: Some("@@S@@".into()) })).set_continues(Some(false)),
+    );
     let ping = serde_json::to_vec(&Reply::<RP>::new(None).set_continues(Some(false)));
     let error = serde_json::to_vec(&SErr::Bad { t: A, v: B });
     let item = |f| serde_json::to_vec(&Reply::new(Some(IP { v: B })).set_continues(cont_of(f)));
@@ -331,6 +355,7 @@ fn templates() -> Value {
         "item0": template(item(0).unwrap(), &["2222222"]),
         "item1": template(item(1).unwrap(), &["2222222"]),
         "item2": template(item(2).unwrap(), &["2222222"]),
+        "say": template(say.unwrap(), &["1111111", "\"@@S@@\""]),
     })
 }
 
@@ -433,15 +458,19 @@ fn run_case(case: &Value) -> Value {
     trace.borrow_mut().truncate(before);
 
     let mut segs = serde_json::Map::new();
+    let mut strs: Vec<String> = Vec::new();
     for p in payloads.values() {
         for seg in p.split(|b| *b == 0) {
             let k = hex(seg);
             if !segs.contains_key(&k) {
-                segs.insert(k, decode_oracle(seg));
+                segs.insert(k, decode_oracle(seg, &mut strs));
             }
         }
     }
-    json!({"id": case["id"], "polls": polls, "exited": exited, "segs": segs, "tmpl": templates()})
+    // the echoed strings as serde_json renders them (with the quotes)
+    let strs: Vec<String> = strs.iter().map(|x| hex(&serde_json::to_vec(x).unwrap())).collect();
+    json!({"id": case["id"], "polls": polls, "exited": exited, "segs": segs, "strs": strs,
+           "tmpl": templates()})
 }
 
 fn main() {
